@@ -262,7 +262,8 @@ RotOpeners(st, q) ==
 \* q.lf: a transient storage fault hits the lookup of the NEW key's record (the "already registered?" check): refused
 DoRotate(st, q) ==
   LET os == RotOpeners(st, q) IN
-  IF Len(os) = 0 \/ q.lf THEN [res |-> "error", st |-> st, by |-> NONE]
+  \* q.win # "ok": the inner signed request lies outside its validity window widened by the CONFIGURED skews: refused
+  IF Len(os) = 0 \/ q.lf \/ q.win # "ok" THEN [res |-> "error", st |-> st, by |-> NONE]
   ELSE LET c == os[1] IN
     IF q.n2 \notin Nonces \/ st.nodes[q.k2].present THEN [res |-> "error", st |-> st, by |-> c]
     ELSE IF st.nodes[c].srv = 0
@@ -341,7 +342,7 @@ RotateOpsAll == [op : {"Rotate"}, k : CertKeys, nid : NodeIds \cup {NONE}, order
               src : CertKeys \cup {"rand"}, which : {"cur", "prev"},
               k2 : CertKeys, e2 : EncKeys, n2 : Nonces \cup Tokens,
               ostate : StateOrNone,     \* a WithState option the caller happens to pass: must not matter
-              lf : BOOLEAN]
+              lf : BOOLEAN, win : {"ok"}]
 
 IdOrder == CHOOSE p \in Perms(CertKeys) : TRUE
 \* the delivery order only matters on the node-ID path: other requests are normalised to one order
